@@ -63,6 +63,9 @@ func (w *WrapGen) path() string {
 	if w.r.Chance(1, 6) {
 		p = strings.ReplaceAll(p, "/", Pick(w.r, []string{"//", "/./"}))
 	}
+	if w.r.Chance(1, 10) && p != "" && !strings.HasSuffix(p, "/") {
+		p += "/" // trailing separator: the same file for every filepath.Clean-based filesystem
+	}
 	return p
 }
 
@@ -105,7 +108,15 @@ func (w *WrapGen) Step() {
 	case 10:
 		w.emit(-1, "RemoveAll %s", hx([]byte(w.path())))
 	case 11:
-		w.emit(-1, "Rename %s %s", hx([]byte(w.path())), hx([]byte(w.path())))
+		// never a directory onto one of its own ancestors or descendants: MemMapFs then walks its
+		// map in Go's random iteration order and the outcome (even whether it panics) varies
+		a, b := w.path(), w.path()
+		ca, cb := pathClean(a), pathClean(b)
+		if ca != cb && (strings.HasPrefix(ca+"/", strings.TrimSuffix(cb, "/")+"/") || strings.HasPrefix(cb+"/", strings.TrimSuffix(ca, "/")+"/")) {
+			w.emit(-1, "Stat %s", hx([]byte(a)))
+		} else {
+			w.emit(-1, "Rename %s %s", hx([]byte(a)), hx([]byte(b)))
+		}
 	case 12, 13:
 		w.emit(-1, "Stat %s", hx([]byte(w.path())))
 	case 14:
